@@ -310,9 +310,9 @@ func init() {
 		Assumptions: []string{"reading D5: only the returned list and to/cc/bto/bcc are judged", "IRI equivalence on this alphabet is an equivalence relation (C14)"},
 		Bound: func(tier string) string {
 			if tier == "thorough" {
-				return "k <= 4 entries over 10 presentations and k <= 5 over the 6 presentations of the quick tier, 14 host types (+Block); to-lists of 15..129 distinct addressees with one repeat at the end / at index 1 / in cc / in bcc; families added after round 5: DESIGN.md 8.11"
+				return "k <= 4 entries over 10 presentations and over 4 spellings of a host root + 2 of another addressee, k <= 5 over the 6 presentations of the quick tier, 14 host types (+Block); to-lists of 15..129 distinct addressees with one repeat at the end / at index 1 / in cc / in bcc; families added after round 5: DESIGN.md 8.11"
 			}
-			return "k <= 4 entries over 6 presentations (a:iri, a:https, a:*Actor, b:iri, public, nil), 14 host types (+Block); to-lists of 15..129 distinct addressees with one repeat at the end / at index 1 / in cc / in bcc; families added after round 5: DESIGN.md 8.11"
+			return "k <= 4 entries over 6 presentations (a:iri, a:https, a:*Actor, b:iri, public, nil) and over 4 spellings of a host root + 2 of another addressee, 14 host types (+Block); every to / cc list of 5..7 entries over 4 presentations of 3 addressees (Object; 5..6: Activity, Question); to-lists of 15..129 distinct addressees with one repeat at the end / at index 1 / in cc / in bcc; families added after round 5: DESIGN.md 8.11"
 		},
 		Run: c10Run,
 	})
@@ -332,6 +332,60 @@ func c10Run(c *engine.Ctx) {
 		c10Small(c, []c10Entry{all[0], all[1], all[4], all[6], all[8], all[7]}, 5, true)
 	}
 	c10Long(c, es)
+	// one addressee in FOUR presentations that are equivalent only after parsing and cleaning (the root of a host written with
+	// no path, "/", "/." and "/x/.."), next to a different one: de-duplication that compares neighbours with a relation that
+	// is not transitive on these removes the wrong entry (found as a genuine defect, fixed in a93b404)
+	// every `to` list (and every `cc` list behind to=[a]) of 5..7 entries over {a:iri, a:*Actor, b:iri, c:iri}: several repetitions, runs
+	// of them, survivors before, between and after them - what a compaction in place can get wrong
+	{
+		deep := []c10Entry{
+			{"a:iri", 0, func() ap.Item { return ap.IRI(c10A) }},
+			{"a:*Actor", 0, func() ap.Item { return &ap.Actor{ID: c10A, Type: ap.PersonType} }},
+			{"b:iri", 1, func() ap.Item { return ap.IRI(c10B) }},
+			{"c:iri", 3, func() ap.Item { return ap.IRI(c10ID(3)) }},
+		}
+		for _, h := range c10Hosts() {
+			if h.block || (h.name != "Object" && h.name != "Activity" && h.name != "Question") {
+				continue
+			}
+			h := h
+			var rec func(cur []int)
+			rec = func(cur []int) {
+				if len(cur) >= 5 {
+					seq := append([]int{}, cur...)
+					for _, slot := range []int{0, 1} {
+						slot := slot
+						a := c10Assign{actor: -1, object: -1}
+						a.lists[slot] = seq
+						if slot == 1 {
+							a.lists[0] = []int{0}
+						}
+						c.Do("C10|"+h.name, func() string { return h.name + ": " + a.str(deep) + " ; Recipients() twice" }, func(t *engine.T) {
+							t.Distinct(true)
+							c10Check(t, deep, h, a)
+						})
+					}
+				}
+				if len(cur) == 7 || len(cur) == 6 && h.name != "Object" {
+					return
+				}
+				for x := range deep {
+					rec(append(append([]int{}, cur...), x))
+				}
+			}
+			rec(nil)
+		}
+	}
+	c10Named[900], c10Named[901] = "http://example.org", "http://example.net/d"
+	root := []c10Entry{
+		{"r:none", 900, func() ap.Item { return ap.IRI("http://example.org") }},
+		{"r:slash", 900, func() ap.Item { return ap.IRI("http://example.org/") }},
+		{"r:dot", 900, func() ap.Item { return ap.IRI("https://EXAMPLE.org/.") }},
+		{"r:dotdot", 900, func() ap.Item { return ap.IRI("http://example.org/x/..") }},
+		{"d:iri", 901, func() ap.Item { return ap.IRI("http://example.net/d") }},
+		{"d:*Object", 901, func() ap.Item { return &ap.Object{ID: "http://example.net/d", Type: ap.NoteType} }},
+	}
+	c10Small(c, root, 4, true)
 }
 
 // c10Small: every assignment of at most `bound` entries of es to the five lists (and actor / blocked object) on every host.
